@@ -164,14 +164,14 @@ def run_history(c):
                 continue
             if st[0] == "D":
                 o["ret"] = win.get_cursor_vertical_diff()
-                o["last"] = win._last_cursor_row
+                o["last"] = getattr(win, "_last_cursor_row", None)     # private: representation-level tie only
             elif st[0] == "E":
                 win.__enter__()
             elif st[0] == "X":
                 win.__exit__(None, None, None)
             else:
                 o["ret"] = win.render_to_terminal(mk_array(st[2], st[3] if len(st) > 3 else "list"), tuple(st[1]))
-                o["last"] = win._last_cursor_row
+                o["last"] = getattr(win, "_last_cursor_row", None)     # private: representation-level tie only
         except termref.Untokenisable as e:
             o["error"] = str(e)
             res.append(o)
@@ -195,7 +195,7 @@ def impl_reply(res):
         if o["kind"] == "E":
             s += " top=%d" % o["top"]
         elif o["kind"] in ("R", "D"):
-            s += " top=%d ret=%d last=%d" % (o["top"], o["ret"], o["last"])
+            s += " top=%d ret=%d last=%s" % (o["top"], o["ret"], "N" if o["last"] is None else o["last"])
         parts.append(s)
     return "ok " + " # ".join(parts)
 
@@ -210,6 +210,23 @@ def canon(reply):
             steps.append(part)
         else:
             steps.append((tuple(termref.norm_ops(termref.dec_ops(f[0]))), tuple(sorted(termref.dec_term(f[1:6]).items())), tuple(f[6:])))
+    return tuple(steps)
+
+
+def canon_prop(reply):
+    """what the PROPERTY speaks about, per step: screen (cells with formatting), scrollback, cursor (row, column, no
+    pending wrap), the value render_to_terminal / get_cursor_vertical_diff returned and top_usable_row - not which
+    operations were written, nor the private _last_cursor_row"""
+    if not reply.startswith("ok "):
+        return reply
+    steps = []
+    for part in reply[3:].split(" # "):
+        f = part.split(" ")
+        if len(f) < 6 or f[0] == "untokenisable":
+            steps.append(part)
+        else:
+            t = termref.dec_term(f[1:6])
+            steps.append((t["screen"], t["cursor"][:3], t["scrollback"], tuple(x for x in f[6:] if not x.startswith("last="))))
     return tuple(steps)
 
 
@@ -255,8 +272,6 @@ def oracle(c, res):
                     i, o["top"] - top, o["ret"], s["cursor"][0] - known)
             if known is None and (o["top"] != top or o["ret"] != 0):
                 return "step %d: nothing rendered yet, but top/return changed" % i
-            if o["last"] != s["cursor"][0]:
-                return "step %d: _last_cursor_row %r, cursor is on row %d" % (i, o["last"], s["cursor"][0])
             top, known = o["top"], s["cursor"][0]        # the window's first row is, by definition, top_usable_row
             if not 0 <= top <= h:
                 return "step %d: top_usable_row %d is not a screen row" % (i, top)
@@ -268,7 +283,8 @@ def oracle(c, res):
         if c.get("outside_domain"):
             # stale cache (content moved, size did not): only C18's bookkeeping is judged
             if st[0] in ("E", "R"):
-                top, known = o["top"], (o.get("last") if st[0] == "R" else None)
+                cups = [op for op in o["ops"] if op[0] == "cup"]
+                top, known = o["top"], ((cups[-1][1] if cups else s["cursor"][0]) if st[0] == "R" else None)
             continue
         if st[0] == "E":
             if full != full_b or s["cursor"][:2] != b["cursor"][:2]:
@@ -476,8 +492,6 @@ def conservation(c, res):
             if known is not None and (o["top"] - top) + o["ret"] != row - known:
                 return ("step %d: get_cursor_vertical_diff changed top_usable_row by %d and returned %d, but the cursor moved "
                         "%d rows (it was written to row %d, the terminal reports row %d)" % (i, o["top"] - top, o["ret"], row - known, known, row))
-            if o["last"] != row:
-                return "step %d: _last_cursor_row %r, the terminal reported row %d" % (i, o["last"], row)
         if st[0] in ("E", "R", "D"):
             top = o["top"]
         if st[0] == "D":
@@ -544,7 +558,16 @@ def check(ctx):
             outs[id(c)] = e
             return "raised %s: %s" % (type(e).__name__, e)
 
-    ctx.tie("C07/histories", cases, line, impl, canon, canon)
+    replies = {}
+
+    def impl_once(c):
+        replies[id(c)] = impl(c)
+        return replies[id(c)]
+
+    # property level: screen + scrollback + cursor + returned value + top_usable_row after every step
+    ctx.tie("C07/screens", cases, line, impl_once, canon_prop, canon_prop)
+    # representation level: the operations written, cursor visibility, graphic state, _last_cursor_row
+    ctx.tie("C07/operations", cases, line, lambda c: replies[id(c)], canon, canon, level="representation")
     for c in cases:
         res = outs[id(c)]
         scrolled = (not isinstance(res, Exception) and
